@@ -54,7 +54,8 @@ namespace cppcms {
 						return false;
 				}
 				
-				return booster::regex_match(path.c_str(),match_,expr_);
+				// the whole string, also when it holds a NUL byte
+				return booster::regex_match(path.c_str(),path.c_str()+path.size(),match_,expr_);
 			}
 
 			virtual bool dispatch(std::string const &url,char const *method,application *app) = 0;
